@@ -126,6 +126,7 @@ theorem C12_never_blocks (cfg : Cfg) (c : CC α) (m : Meth α) (hc : c.closing =
   | write p => simp [CC.call, ha]
   | isActive => simp [CC.call]
   | close => simp [CC.call]
+  | detach => simp [CC.call]
 
 /-- Close is idempotent: a second Close returns nil and changes nothing. -/
 theorem C12_close_idempotent (cfg : Cfg) (c : CC α) :
@@ -198,6 +199,7 @@ theorem C12_no_panic_recycled (cfg : Cfg) (c : CC α) (m : Meth α) (hc : c.clos
   | write p => simp [CC.call, ha]
   | isActive => simp [CC.call]
   | close => simp [CC.call]
+  | detach => simp [CC.call]
 
 example : (closedLB : LB Nat).length = 0 := rfl
 
